@@ -22,7 +22,7 @@ def storages(x):
 def one(cases, model, rng, tier, d, rep, tmpdir):
     dtname = ["f64", "f32", "c128", "c64"][(d + rep) % 4]
     dt = DTYPES[dtname]
-    kind = ["plain", "ttm", "svd", "sliced", "view", "ttm-unit"][rep % 6]
+    kind = ["plain", "ttm", "svd", "sliced", "view", "ttm-unit", "zero-core", "svd-of-zero"][rep % 8]
     N = rand_modes(rng, d, 1, 4 if d <= 4 else 2, distinct=False)
     if kind == "ttm" or kind == "ttm-unit":
         M = rand_modes(rng, d, 1, 3 if d <= 4 else 2, distinct=False)
@@ -38,6 +38,13 @@ def one(cases, model, rng, tier, d, rep, tmpdir):
     elif kind == "sliced":
         big = rand_tt(rng, [n + 2 for n in N], rand_ranks(rng, d, 3), dt)
         x = big[tuple(slice(1, n + 1) for n in N)] if d > 1 else big[(slice(1, N[0] + 1),)]
+    elif kind == "zero-core":
+        base = rand_tt(rng, N, rand_ranks(rng, d, 3), dt)
+        cs = [c.clone() for c in base.cores]
+        cs[rng.randrange(d)] *= 0            # an exactly zero core next to non-zero ones (a masked product, an off-diagonal block)
+        x = torchtt.TT(cs)
+    elif kind == "svd-of-zero":
+        x = torchtt.TT(tn.zeros(N, dtype=dt), eps=1e-10)
     elif kind == "view":
         Aop = rand_tt(rng, N, rand_ranks(rng, d, 2), dt, M=[min(n + 1, 3) for n in N])
         x = Aop.t().conj()
@@ -121,7 +128,7 @@ def run(res, rng, tier, known):
     from common import run_cases
     cases, model = [], []
     orders = [1, 2, 3, 4, 5] if tier == "quick" else [1, 2, 3, 4, 5, 6]
-    reps = 6 if tier == "quick" else 18
+    reps = 8 if tier == "quick" else 24
     with tempfile.TemporaryDirectory(prefix="ttverif_c19_") as tmpdir:
         for d in orders:
             for rep in range(reps):
